@@ -10,7 +10,8 @@ from vlib import coq
 
 from strawberryfields.backends.gaussianbackend.gaussiancircuit import GaussianModes
 
-SIG_PATH = "/verif/coq/Gen/gausscirc_sig.json"
+import os as _os
+SIG_PATH = _os.path.join(_os.path.dirname(_os.path.dirname(_os.path.dirname(_os.path.abspath(__file__)))), "coq", "Gen", "gausscirc_sig.json")
 
 
 def translate_gausscirc(ctx):
